@@ -3,6 +3,8 @@
 package blockchain
 
 import (
+	"net"
+
 	"github.com/virel-project/virel-blockchain/v3/adb"
 	"github.com/virel-project/virel-blockchain/v3/block"
 	"github.com/virel-project/virel-blockchain/v3/p2p"
@@ -72,4 +74,33 @@ func (bc *Blockchain) VerifHandleStratumConn(v *stratumsrv.Conn) error { return 
 // TopHeight+1, AddTransaction into the mempool inside one DB.Update).
 func (bc *Blockchain) VerifPacketTx(data []byte) {
 	bc.packetTx(p2p.Packet{Type: packet.TX, Data: data})
+}
+
+// VerifStartP2P is StartP2P with the listener supplied by the caller (nil: this node does not listen) instead
+// of net.Listen on the fixed port, so that several nodes can run in one process on ephemeral loopback ports.
+// The same goroutines are started (pinger, incomingP2P, newConnections, Synchronize, accept loop and, when dial
+// is set, the outgoing-connection loop StartClients). p2p.Log is left alone (a process-wide variable).
+func (bc *Blockchain) VerifStartP2P(peers []string, l net.Listener, private, exclusive, dial bool) {
+	bc.P2P = p2p.Start(peers, bc.DataDir)
+	bc.P2P.Exclusive = exclusive
+	if l != nil {
+		bc.P2P.VerifSetListener(l)
+	}
+	if dial {
+		go bc.P2P.StartClients(private)
+	}
+	go bc.pinger()
+	go bc.incomingP2P()
+	go bc.newConnections()
+	go bc.Synchronize()
+	if l != nil {
+		go bc.P2P.VerifAcceptLoop(private)
+	}
+}
+
+// VerifSyncState reads the synchronisation target and the last requested height.
+func (bc *Blockchain) VerifSyncState() (height uint64, diff uint128.Uint128, last uint64) {
+	bc.SyncMut.RLock()
+	defer bc.SyncMut.RUnlock()
+	return bc.SyncHeight, bc.SyncDiff, bc.SyncLastRequestHeight
 }
